@@ -21,7 +21,7 @@ BUDGET = {'quick': 25, 'thorough': 400}
 EXC_TYPES = ['ValueError', 'RuntimeError', 'KeyError', 'IndexError', 'ZeroDivisionError', 'MemoryError', 'OSError',
              'AssertionError']
 KINDS = ['return', 'raise', 'swallow', 'native', 'retry_loop', 'nested_inner_times_out', 'nested_inner_returns']
-DELTAS = [-200, -60, -30, -15, -8, -4, -2, -1, 0, 1, 2, 4, 8, 15, 30, 60, 200]
+DELTAS = [-200, -60, -30, -15, -8, -4, -2, -1, 0, 1, 2, 4, 8, 15, 30, 60, 200, 500]
 
 
 def fixed_cases(tier):
@@ -30,14 +30,14 @@ def fixed_cases(tier):
         for d in DELTAS:
             for r in range(reps):
                 yield {'kind': kind, 'limit_ms': 80, 'delta_ms': d, 'exc': EXC_TYPES[(d+r) % len(EXC_TYPES)],
-                       'tau_ms': 30, 'rep': r}
+                       'tau_ms': 300 if d in (60, 200, 500) else 30, 'rep': r}
 
 
 def strategy(tier):
     return st.fixed_dictionaries({
         'kind': st.sampled_from(KINDS), 'limit_ms': st.sampled_from([40, 80, 120]),
         'delta_ms': st.one_of(st.sampled_from(DELTAS), st.integers(-20, 20)),
-        'exc': st.sampled_from(EXC_TYPES), 'tau_ms': st.sampled_from([5, 30, 80]), 'rep': st.integers(0, 3)})
+        'exc': st.sampled_from(EXC_TYPES), 'tau_ms': st.sampled_from([5, 30, 80, 300]), 'rep': st.integers(0, 3)})
 
 
 class _State:
@@ -152,6 +152,12 @@ def check_case(case):
         outcome = 'exception'
         payload = e
     t_ret = time.monotonic()
+    # the worker that ran the function must be gone when a timeout is reported (the limiter joins it)
+    alive_at_return = state.thread is not None and state.thread.is_alive()
+    finished_at_return = state.finished is not None
+    if outcome == 'timeout' and alive_at_return and not finished_at_return:
+        res.add(viol('worker_alive_after_timeout', f'{case}: TimeoutError returned while the worker thread is still alive '
+                                                   f'and the function has not finished', data=d0))
     # stray interrupt shortly after?
     try:
         x = 0
@@ -164,6 +170,9 @@ def check_case(case):
     b1, i1 = state.beats, state.inner_beats
     time.sleep(0.03)
     b2, i2 = state.beats, state.inner_beats
+    if outcome == 'timeout' and not finished_at_return and state.finished is not None:
+        res.add(viol('function_completed_after_return', f'{case}: the function finished ({state.finished}) after '
+                                                        f'run_timeout had already raised TimeoutError', data=d0))
     if b2 != b1:
         res.add(viol('function_still_running_after_return', f'{case}: heartbeat advanced {b1} -> {b2} after run_timeout '
                                                              f'returned ({outcome})', data=d0))
